@@ -114,8 +114,44 @@ def fixed_point(sx, tsel, psel, wsel, polsel, gamma, force):
         # (nothing is observed for twin comparison: the real-code replay deliberately uses its own, genuine fixed point)
 
 
+def cap_hit(sx, tsel, psel, wsel, polsel, gamma, cap):
+    """a run that exhausts its iteration budget must not report convergence: with a budget of `cap` improvement steps from a given
+    starting policy, `converged` implies that the last improvement step left the policy unchanged (within isclose), i.e. the
+    returned policy is the one the returned values were computed for.  Same budget on the symbolic and on the real run."""
+    name, T = TENSORS[tsel]
+    S, A = len(T), len(T[0])
+    g = sx.const(F(gamma))
+    c = sx.const
+    r = [[sx.real(f"r_{s}_{a}", -2, 2) for a in range(A)] for s in range(S)]
+    prior = [row[:A] for row in PRIORS[psel]][:S] if len(PRIORS[psel]) > 1 else [PRIORS[psel][0][:A]]
+    prior = [[x / sum(row) for x in row] for row in prior]
+    w = WEIGHTS[wsel][:S] if len(WEIGHTS[wsel]) > 1 else WEIGHTS[wsel]
+    pol = [[x for x in POLICIES[polsel][s % 2][:A]] for s in range(S)]
+    pol = [[x / sum(row) for x in row] for row in pol]
+    from msdm.algorithms.entregpolicyiteration import entropy_regularized_policy_iteration
+    import numpy as rnp
+    with facade(sx):
+        tf = _t(sx, [[[c(T[s][a][n]) for n in range(S)] for a in range(A)] for s in range(S)])
+        rf = _t(sx, [[[r[s][a]] for a in range(A)] for s in range(S)])
+        with sx.must_not_raise('entreg'):
+            res = entropy_regularized_policy_iteration(
+                transition_matrix=tf, reward_matrix=rf, discount_rate=g, entropy_weight=_t(sx, [c(x) for x in w]), n_planning_iters=cap,
+                policy_prior=_t(sx, [[c(x) for x in row] for row in prior]), initial_policy=_t(sx, [[c(x) for x in row] for row in pol]),
+                check_convergence=True, force_nonzero_probabilities=True)
+        if cap == 1 and bool(res.converged):
+            pi = res.policy.numpy() if not sx.sym else rnp.asarray(res.policy)
+            for s in range(S):
+                for a in range(A):
+                    tol = 1e-8 + 1e-5 * abs(float(pol[s][a]))
+                    sx.prove_eq(pi[s, a], c(pol[s][a]), f'converged-at-the-cap-only-if-the-policy-did-not-change[{s},{a}]', tol=F(tol) + F(1, 10**9))
+        # (nothing observed for twin comparison: whether a step changes the policy depends on the real exponential)
+
+
 def jobs(tier):
-    o = dict(timeout_ms=60000, budget_s=900, max_paths=2000)
+    o = dict(timeout_ms=15000, budget_s=240, max_paths=2000)      # (a case needs ~0.1 s of solver time on the unchanged tree)
+    for tsel in range(len(TENSORS)):
+        for wsel in (0, 2):
+            yield ('cap_hit', dict(tsel=tsel, psel=1, wsel=wsel, polsel=1, gamma='1/2', cap=1), o)
     for tsel in range(len(TENSORS)):
         for psel in range(len(PRIORS)):
             for wsel in range(len(WEIGHTS)):
